@@ -1,0 +1,28 @@
+//go:build verif
+
+package multicast
+
+import "github.com/gauss-project/aurorafs/pkg/boson"
+
+// VerifDiscover runs one synchronous discovery round (Service.discover → doFindGroup) for group gid
+// with option.KeepConnectedPeers / option.KeepPingPeers set to the given values for the duration of
+// the call (the harness otherwise runs groups with both 0, which makes discover a no-op).
+// While it runs, the group's groupPeersSending slot is occupied, which is the state "another
+// goroutine is publishing the peer lists": notifyPeers calls made by the membership transitions
+// inside return at once instead of sleeping out the 500 ms rate limit.  It reports whether the
+// group exists.  Add-only; with the verif tag off this file is not compiled.
+func (s *Service) VerifDiscover(gid boson.Address, keepConnected, keepPing int) bool {
+	g := s.getGroup(gid)
+	if g == nil {
+		return false
+	}
+	old := g.option
+	o := old
+	o.KeepConnectedPeers, o.KeepPingPeers = keepConnected, keepPing
+	g.update(o)
+	g.groupPeersSending <- struct{}{}
+	s.discover(g)
+	<-g.groupPeersSending
+	g.update(old)
+	return true
+}
